@@ -14,7 +14,10 @@
    conc_one_goroutine_per_child      each child is evaluated once, by its own goroutine, on its own copy of the loop variable
    conc_joins_then_reports           the block's error is decided after every child has ended
    for_cap_counts_every_condition    for_loop's fuel: every evaluation of the condition counts against maxExecuteNum = 10000
-   for_step_after_continue           the step runs after `continue` (C02_for_step_after_continue) *)
+   for_step_after_continue           the step runs after `continue` (C02_for_step_after_continue)
+   tree_read_only_at_run_time        evaluation is a function of (tree, data context, locals): Sem.v's evaluators take the tree as a value and
+                                     return no new tree — no Evaluate*/Execute* method stores into its own node, so executions that share a
+                                     compiled tree (pool instances; a rule named twice) share nothing through it *)
 From Coq Require Import String List Bool.
 Import ListNotations.
 Local Open Scope string_scope.
@@ -33,8 +36,8 @@ Definition facts_C09 := ["rule_execute_recovers"; "call_recover_covers_arguments
                          "call_recover_covers_arguments_ThreeLevelCall"; "for_cap_counts_every_condition";
                          "conc_counts_every_child"; "conc_one_goroutine_per_child"; "conc_joins_then_reports"].
 Definition facts_C11 := ["statements_protocol"; "return_protocol"].
-Definition facts_C15 := ["rule_locals_fresh_map"; "rule_execute_recovers"].
-Definition facts_C18 := ["conc_counts_every_child"; "conc_one_goroutine_per_child"; "conc_joins_then_reports"].
+Definition facts_C15 := ["rule_locals_fresh_map"; "rule_execute_recovers"; "tree_read_only_at_run_time"].
+Definition facts_C18 := ["conc_counts_every_child"; "conc_one_goroutine_per_child"; "conc_joins_then_reports"; "tree_read_only_at_run_time"].
 Definition facts_C20 := ["call_recover_covers_arguments_FunctionCall"; "call_recover_covers_arguments_MethodCall";
                          "call_recover_covers_arguments_ThreeLevelCall"].
 
@@ -46,4 +49,4 @@ Definition facts_of (pid : string) : list string :=
 Definition all_fact_names : list string :=
   ["call_recover_covers_arguments_FunctionCall"; "call_recover_covers_arguments_MethodCall"; "call_recover_covers_arguments_ThreeLevelCall";
    "conc_counts_every_child"; "conc_joins_then_reports"; "conc_one_goroutine_per_child"; "for_cap_counts_every_condition";
-   "for_step_after_continue"; "return_protocol"; "rule_execute_recovers"; "rule_locals_fresh_map"; "statements_protocol"].
+   "for_step_after_continue"; "return_protocol"; "rule_execute_recovers"; "rule_locals_fresh_map"; "statements_protocol"; "tree_read_only_at_run_time"].
